@@ -238,6 +238,7 @@ pub const POLICY_NOATIME: u8 = 2;
 pub const ENV_NONE: u8 = 0;
 pub const ENV_FULL: u8 = 1; // rebinding, unbinding (eviction / external deletion), mkdir, restamping
 pub const ENV_NO_UNBIND: u8 = 2; // eviction out of play (C04)
+pub const ENV_MKDIR_ONLY: u8 = 4; // peers only create directories
 pub const ENV_PUT_ONLY: u8 = 3; // peers only put/ensure: a present key is never rebound or removed
 
 pub const TRACE_LEN: usize = 12;
@@ -694,7 +695,7 @@ fn env_step() {
                     }
                     env_dump(d, NONE, 4, None);
                 }
-            } else if kind == KIND_CACHE {
+            } else if kind == KIND_CACHE && st.env != ENV_MKDIR_ONLY {
                 let mut s = 0u8;
                 while s < 2 {
                     let cur = st.dir[d as usize].slot[s as usize];
